@@ -500,6 +500,15 @@ func replayCase(w *out.W, id string, g *gen, cfg planCfg, scope string) {
 		head := fmt.Sprintf("%s %s q=%s dev=%q desired=%q step %d/%d [%s]", dial, scope, opt(cfg.q), cfg.dev, cfg.marker, step, steps, strings.Join(trail, " | "))
 		desired := schema.NewRealm(buildSchema(cfg.pg, cfg.marker, next))
 		name := fmt.Sprintf("s%d", step)
+		caseLine := ""
+		if scope == "schema" {
+			caseLine = replayCaseLine(drv, cfg, state, next, desired.Schemas[0])
+		}
+		record := func(obs string) {
+			if caseLine != "" {
+				w.Case(fmt.Sprintf("%s.s%d", id, step), caseLine, []string{obs})
+			}
+		}
 		var (
 			plan *migrate.Plan
 			err  error
@@ -521,6 +530,7 @@ func replayCase(w *out.W, id string, g *gen, cfg planCfg, scope string) {
 			return
 		case errors.Is(err, migrate.ErrNoPlan):
 			w.Count("outcome:noplan")
+			record("noplan")
 			state = next
 			drv.state = state
 			continue
@@ -535,6 +545,9 @@ func replayCase(w *out.W, id string, g *gen, cfg planCfg, scope string) {
 			switch {
 			case strings.Contains(err.Error(), "schemas when migration plan is scoped to one"):
 				cls = "replay-plan-rejected-two-schemas"
+				var n int
+				fmt.Sscanf(err.Error(), "found %d schemas", &n)
+				record(fmt.Sprintf("rejected:multi:%d", n))
 			case quoteCase && (strings.Contains(err.Error(), "scanning statements from") || strings.Contains(err.Error(), "devDrv: inspected after")):
 				// the history holds a name with an unescaped quote character: the statement
 				// scanner cannot split the file the planner wrote (face of ident-quote-unescaped)
@@ -547,6 +560,7 @@ func replayCase(w *out.W, id string, g *gen, cfg planCfg, scope string) {
 			return
 		}
 		w.Count("outcome:planned")
+		record("planned")
 		for _, c := range plan.Changes {
 			w.Count(fmt.Sprintf("source:%T", c.Source))
 		}
@@ -609,4 +623,77 @@ func replayCase(w *out.W, id string, g *gen, cfg planCfg, scope string) {
 		drv.state = state
 	}
 	w.ImplOnly(id, fmt.Sprintf("%s %s q=%s steps=%d => %d statements, %d replays", dial, scope, opt(cfg.q), steps, nst, drv.snaps))
+}
+
+// replayCaseLine: the model's view of one schema-scoped planning step (Qual/Replay.v):
+//
+//	deep q mode dev user  nobjs obj*  ncur (name enum)*  ndes (name enum)*  nmod name*
+//
+// [modified] is asked of the real differ (TableDiff on freshly built graphs, the replayed
+// one under the dev name); the object changes are the enum types dropped / modified / added.
+func replayCaseLine(drv *devDrv, cfg planCfg, cur, des []dtab, desS *schema.Schema) string {
+	curS := buildSchema(cfg.pg, drv.devName, cur)
+	ts := []string{"0", opt(cfg.q), "0", hx(drv.devName), hx(cfg.marker)}
+	type en struct {
+		name string
+		vals string
+	}
+	enums := func(tabs []dtab) (out []en) {
+		if !cfg.pg {
+			return nil
+		}
+		for _, t := range tabs {
+			for _, c := range t.cols {
+				if c.typ == "enum" {
+					out = append(out, en{c.enum, strings.Join(c.vals, ",")})
+				}
+			}
+		}
+		return
+	}
+	ce, de := enums(cur), enums(des)
+	find := func(l []en, n string) (en, bool) {
+		for _, e := range l {
+			if e.name == n {
+				return e, true
+			}
+		}
+		return en{}, false
+	}
+	var objs []string
+	for _, e := range ce {
+		if e2, ok := find(de, e.name); !ok || e2.vals != e.vals {
+			objs = append(objs, hx(drv.devName))
+		}
+	}
+	for _, e := range de {
+		if _, ok := find(ce, e.name); !ok {
+			objs = append(objs, hx(cfg.marker))
+		}
+	}
+	ts = append(ts, itoa(len(objs)))
+	ts = append(ts, objs...)
+	tabs := func(l []dtab) {
+		ts = append(ts, itoa(len(l)))
+		for _, t := range l {
+			hasEnum := false
+			for _, c := range t.cols {
+				hasEnum = hasEnum || (c.typ == "enum" && cfg.pg)
+			}
+			ts = append(ts, hx(t.name), b01(hasEnum))
+		}
+	}
+	tabs(cur)
+	tabs(des)
+	var mods []string
+	for _, t1 := range curS.Tables {
+		if t2, ok := desS.Table(t1.Name); ok {
+			if ch, err := drv.TableDiff(t1, t2); err != nil || len(ch) > 0 {
+				mods = append(mods, hx(t1.Name))
+			}
+		}
+	}
+	ts = append(ts, itoa(len(mods)))
+	ts = append(ts, mods...)
+	return strings.Join(ts, " ")
 }
